@@ -125,9 +125,85 @@ def _rec(n, log, fq):
             _rec(c, log, fq)
 
 
+def _forward_block(blk, log, fq):
+    """`const T v = <expr with a call>;  TABLE[idx] = v;  ... v ...`  ->  `TABLE[idx] = <expr>;  ... TABLE[idx] ...`
+    (v is read nowhere before the store, TABLE is not written and the variables of idx are not assigned afterwards in the block):
+    the value computed once and kept in a local is the table entry it is stored into."""
+    inner = blk.get("inner") or []
+    i = 0
+    while i < len(inner):
+        st = inner[i]
+        if st and st.get("kind") == "DeclStmt" and len(kids(st)) == 1 and kids(st)[0].get("kind") == "VarDecl":
+            v = kids(st)[0]
+            t = v.get("type", {}).get("qualType", "")
+            has_call = kids(v) and any(x.get("kind") in ("CallExpr", "CXXMemberCallExpr") for x in walk(kids(v)[-1]))
+            if t.startswith("const ") and t[6:] in SCALARS and has_call:
+                vid = v.get("id")
+                q = next((j for j in range(i + 1, len(inner)) if inner[j] and _refs(inner[j], vid)), None)
+                if q is not None:
+                    fin = strip(inner[q])
+                    if fin.get("kind") == "BinaryOperator" and fin.get("opcode") == "=":
+                        lhs, rhs = kids(fin)
+                        r = strip(rhs, casts=True)
+                        sub = subscript(lhs)
+                        tname = name_of(sub[0]) if sub is not None else None
+                        if tname is None and sub is not None and subscript(sub[0]) is not None:
+                            tname = name_of(subscript(sub[0])[0])
+                        if r.get("kind") == "DeclRefExpr" and r.get("referencedDecl", {}).get("id") == vid and sub is not None and \
+                                tname and not _refs(lhs, vid):
+                            rest = [inner[j] for j in range(q + 1, len(inner)) if inner[j]]
+                            idx_ids = {x.get("referencedDecl", {}).get("id") for x in walk(lhs) if x.get("kind") == "DeclRefExpr"}
+                            writes_t = False
+                            for b in rest:
+                                for n in walk(b):
+                                    k = n.get("kind")
+                                    tg = None
+                                    if k == "CompoundAssignOperator" or (k == "BinaryOperator" and n.get("opcode") == "="):
+                                        tg = strip(kids(n)[0])
+                                    elif k == "UnaryOperator" and n.get("opcode") in ("++", "--"):
+                                        tg = strip(kids(n)[0])
+                                    while tg is not None and subscript(tg) is not None:
+                                        tg = strip(subscript(tg)[0])
+                                    if tg is not None and name_of(tg) == tname:
+                                        writes_t = True
+                            if not writes_t and not (idx_ids & _assigned_names(rest)):
+                                def rep(n):
+                                    ch = n.get("inner")
+                                    if not ch:
+                                        return
+                                    for k_, c in enumerate(ch):
+                                        if not c:
+                                            continue
+                                        if c.get("kind") == "DeclRefExpr" and c.get("referencedDecl", {}).get("id") == vid:
+                                            ch[k_] = copy.deepcopy(lhs)
+                                        else:
+                                            rep(c)
+                                for b in rest:
+                                    rep(b)
+                                fin_inner = fin.get("inner")
+                                fin_inner[1] = kids(v)[-1]
+                                del inner[i]
+                                log.append((fq, v.get("name"), tname + "[..] (forwarded)"))
+                                continue
+        i += 1
+    for c in inner:
+        if c:
+            _rec2(c, log, fq)
+
+
+def _rec2(n, log, fq):
+    if n.get("kind") == "CompoundStmt":
+        _forward_block(n, log, fq)
+        return
+    for c in n.get("inner", []) or []:
+        if c:
+            _rec2(c, log, fq)
+
+
 def run(tu):
     log = []
     for f in tu.all_fns():
         if f.body is not None:
             _rec(f.body, log, f.qual)
+            _rec2(f.body, log, f.qual)
     return log
